@@ -24,8 +24,33 @@ package http1
 //@   abstract-too
 //@   ensures r != nil
 
+// ---- C01(e), C03 (reject path), C18 (exit check): further typestates of the same Serve loop ----
+// phase: 0 = iteration has neither run the handler nor written a response, 2 = handler returned,
+// 3 = the response of this iteration has been written. rejecting: the error-response path was taken.
+// closeSet: "Connection: close" was put on the response in this iteration. notRunningSeen: the exit
+// check after the handler observed a stopped engine.
+//@ ghost var phase int
+//@ ghost var rejecting bool
+//@ ghost var closeSet bool
+//@ ghost var notRunningSeen bool
+
 //@ func Server.Serve(s, c, conn) err
-//@   props C19
+//@   props C19, C18, C01, C03
+//@   requires phase == 0 && !rejecting && !closeSet && !notRunningSeen
+//@   assert @C01 before ServeHTTP: phase == 0 && err == nil && !rejecting
+//@   ghostset after ServeHTTP: phase = 2
+//@   ghostset before writeErrorResponse: rejecting = true
+//@   ghostset after SetConnectionClose: closeSet = true
+//@   ghostset after SetCanonical: closeSet = closeSet || sameSlice(arg2, bytestr.StrClose)
+//@   ghostset after IsRunning: notRunningSeen = !result
+//@   assert @C01 before writeResponse: (phase == 2 || rejecting) && phase != 3
+//@   assert @C03 before writeResponse: rejecting ==> closeSet && phase == 0
+//@   assert @C18 before writeResponse: notRunningSeen ==> closeSet
+//@   ghostset after writeResponse: phase = 3
+//@   assert @C01 before ResetWithoutConn: phase == 3 && !rejecting
+//@   ghostset after ResetWithoutConn: phase = 0
+//@   ghostset after ResetWithoutConn#0: closeSet = false
+//@   top-ensures @C03 rejecting ==> phase == 3
 //@   replay-import context
 //@   replay-import sync
 //@   replay-import time
@@ -42,6 +67,8 @@ package http1
 //@   top-ensures traceOpen == 0
 //@   loop 0:
 //@     invariant traceOpen == 0 && evDepth == 0 && !traceStarted
+//@     invariant phase == 0 && !rejecting && !closeSet
+//@     invariant @C18 !notRunningSeen
 
 //@ func Server.Serve$1()
 //@   loop 0:
